@@ -24,6 +24,8 @@ fn capture_configs() -> Vec<(&'static str, Vec<&'static str>)> {
         ("large+fraction", vec!["c = 1e21", "d = 0.1"]),
         ("negzero+long", vec!["c = -0", "d = 123456789.123"]),
         ("functions", vec!["c = q => q", "d = [n => n + 1, abs]"]),
+        // integer-valued numbers around the 64-bit integer boundaries (written out with all their digits)
+        ("integer-boundaries", vec!["c = 2 ^ 63", "d = [0 - 9.5e18, 9.3e18, 2 ^ 64 - 2048, 2 ^ 53 + 2, 2 ^ 31, 2 ^ 32 + 1, 0 - 2 ^ 63, 1e19, 99999999999999999999]"]),
         // outer variables named like the function's own parameters (they must never be substituted
         // for the parameters, whatever the body re-assigns)
         ("outer-named-like-parameters", vec!["x = \"outer-x\"", "y = [\"outer-y\"]", "c = 1", "d = [2]"]),
@@ -512,9 +514,19 @@ pub fn run(ctx: &Ctx, replay: Option<&J>) -> i32 {
     // depth-3 spines, all configurations for the rest)
     let mut jobs: Vec<(usize, usize)> = vec![];
     for (ci, c) in cases.iter().enumerate() {
-        let deep = c.class.matches('@').count() >= 2;
+        let level = c.class.matches('@').count();
+        let deep = level >= 2;
         for k in 0..cfgs.len() {
-            if !deep || thorough && k % 4 == ci % 4 || !thorough && k == ci % cfgs.len() {
+            // quick: every configuration for the kinds alone, a rotating third for parent x child
+            // bodies, one for the depth-3 spines; thorough: all / all / a rotating quarter
+            let pick = if deep {
+                if thorough { k % 4 == ci % 4 } else { k == ci % cfgs.len() }
+            } else if level == 1 && !thorough {
+                (k + ci) % 3 == 0
+            } else {
+                true
+            };
+            if pick {
                 jobs.push((ci, k));
             }
         }
